@@ -5,6 +5,7 @@ mod apache;
 mod container;
 mod dtarget;
 mod io;
+mod rt_fixed;
 mod schema;
 mod sexp;
 mod sval;
@@ -339,6 +340,15 @@ fn run_case(line: &str) -> String {
 		"sos" => cmd_sos(args),
 		"dealloc" => cmd_dealloc(args),
 		"sod" => cmd_sod(args),
+		"rt" => {
+			// rt SEED N : native round trips of a fixed family of ordinary Rust types
+			let seed: u64 = args[0].int()?;
+			let n: usize = args[1].int()?;
+			Ok(match rt_fixed::run(seed, n) {
+				Ok(c) => format!("(ok {c})"),
+				Err(e) => { let e: String = e.chars().rev().take(400).collect::<Vec<_>>().into_iter().rev().collect(); format!("(fail {})", esc(&e)) }
+			})
+		}
 		"cw" => container::cmd_cw(args),
 		"cr" => container::cmd_cr(args),
 		"apache_read" => apache::cmd_apache_read(args),
